@@ -51,7 +51,7 @@ func GenConf(rng *rand.Rand) plugin.Conf {
 	return c
 }
 
-type ident struct{ ns, name, app, pool string }
+type ident struct{ ns, name, app, pool, kind string }
 
 // Gen proposes the next op of a history in which up to 3 deployments x up to 4 pods share the sized pool p1.
 type Gen struct {
@@ -76,11 +76,16 @@ func NewGen(rng *rand.Rand, conf plugin.Conf) *Gen {
 		}
 		np := 1 + rng.Intn(4)
 		for i := 1; i <= np; i++ {
-			g.ids = append(g.ids, ident{"ns1", fmt.Sprintf("d%d-x%d", d, i), fmt.Sprintf("d%d", d), pool})
+			g.ids = append(g.ids, ident{"ns1", fmt.Sprintf("d%d-x%d", d, i), fmt.Sprintf("d%d", d), pool, "dp"})
 		}
 		if rng.Intn(100) < 85 {
 			g.prelude = append(g.prelude, fmt.Sprintf("app scale dp ns1 d%d %d", d, rng.Intn(5)))
 		}
+	}
+	if rng.Intn(100) < 10 {
+		// a statefulset pod carrying the pool annotation (outside the property's statement, inside the model)
+		g.ids = append(g.ids, ident{"ns1", "s1-0", "s1", "p1", "sts"})
+		g.prelude = append(g.prelude, "app scale sts ns1 s1 1")
 	}
 	if rng.Intn(100) < 75 {
 		g.prelude = append(g.prelude, g.apiPoolLine("p1"))
@@ -175,7 +180,7 @@ func (g *Gen) Next(w *plugin.World, step int) string {
 		if p == nil {
 			add(5, func() string {
 				g.needSync = true
-				return fmt.Sprintf("pod create %s %s dp %s %s 0 - 1", id.ns, id.name, id.app, tilde(id.pool))
+				return fmt.Sprintf("pod create %s %s %s %s %s 0 - 1", id.ns, id.name, id.kind, id.app, tilde(id.pool))
 			})
 			continue
 		}
@@ -216,6 +221,9 @@ func (g *Gen) Next(w *plugin.World, step int) string {
 	add(0.6, func() string { return "sync pods" })
 	add(1.5, func() string { return "resync ? 0 0" })
 	add(1.2, func() string { return g.releaseLine(w) })
+	add(0.5, func() string { return "syncips 0" })
+	add(0.25, func() string { g.needSync = false; return "restart" })
+	add(0.35, func() string { return g.reloadLine(w) })
 	add(1.0, func() string {
 		g.needSync = true
 		return fmt.Sprintf("app scale dp ns1 d%d %d", 1+rng.Intn(3), rng.Intn(5))
@@ -249,6 +257,24 @@ func (g *Gen) releaseLine(w *plugin.World) string {
 	k := util.ParseKey(r.Key)
 	return fmt.Sprintf("release %d %s %s %s %s %s 0 0", r.IP, tilde(k.AppTypePrefix), tilde(k.Namespace), tilde(k.AppName),
 		tilde(k.PodName), tilde(k.PoolName))
+}
+
+// reloadLine: the same configuration, the initial one, or one without its last pool (a reload may only lower a count).
+func (g *Gen) reloadLine(w *plugin.World) string {
+	next := w.Pools
+	switch g.rng.Intn(3) {
+	case 1:
+		next = g.conf.Pools
+	case 2:
+		if len(next) > 1 {
+			next = next[:len(next)-1]
+		}
+	}
+	f := 0
+	if g.rng.Intn(100) < g.faults {
+		f = 1 + g.rng.Intn(2)
+	}
+	return fmt.Sprintf("reload %s %d", plugin.PoolsLine(next), f)
 }
 
 // Histories is the generator handed to RunHistories.
